@@ -283,6 +283,17 @@ def generated_models():
         'tail-into-cycle': {0: [1], 1: [2], 2: [1]}, 'two-cycles': {0: [1, 2], 1: [0], 2: [0]}, 'chain40': {i: ([i + 1] if i < 39 else []) for i in range(40)},
         'chain400': {i: ([i + 1] if i < 399 else []) for i in range(400)},
     }
+    # a ladder: 30 layers of two decisions, each requiring both decisions of the next layer: 60 nodes, 116 requirements, 2^30 paths (a cycle
+    # search that does not remember finished nodes never ends here; seeded change C12_g); the logic reads one requirement only, so that the
+    # evaluation itself stays linear
+    ladder = {}
+    for k in range(30):
+        for side in (0, 1):
+            ladder[2 * k + side] = [2 * k + 2, 2 * k + 3] if k < 29 else []
+    body = ''.join(gen_decision(i, [('d', j) for j in js] + [('i', 0)], 'i0' if not js else 'i0') for i, js in ladder.items())
+    # only the bottom layer is invoked: the evaluator of a decision evaluates every required decision again for each requirement (no memo within one
+    # evaluation), so invoking the top of a ladder is exponential on the unchanged tree too (it terminates; noted in NOTES-C12); the BUILD is linear
+    model('decisions-ladder30', body, ['d58', 'd59'])
     for name, g in graphs.items():
         body = ''.join(gen_decision(i, [('d', j) for j in js] + [('i', 0)], ' + '.join(['i0'] + ['d%d' % j for j in js])) for i, js in g.items())
         model('decisions-' + name, body, ['d%d' % i for i in list(g)[:4]])
